@@ -63,6 +63,15 @@ def gen_cases(tier, seed):
         la, lb = int(rng.integers(0, 4)), int(rng.integers(0, 4))
         shells, classes = bases.tight_far_pair(rng, la, lb)
         cases.append({"shells": shells, "classes": classes + ["l:%d,%d" % (la, lb), "nsh:2"], "cost": 30})
+    # the largest bases the quantifier admits: four shells of high angular momentum with three segments each (150-250 functions)
+    for k in range(1 if tier == "quick" else 6):
+        rng = bases.rng_for("C02", seed, tier, "large", k)
+        ls = [[5, 4, 5, 4], [4, 5, 3, 5], [5, 5, 4, 3]][k % 3]
+        shells, classes = bases.rand_basis(rng, ls, Kmax=2, Mmax=3, scale=1.0, distinct_M=False, symmetric=False)
+        for s_ in shells:
+            while len(s_["k"][0]) < 3:
+                s_["k"] = [row + [float(rng.normal()) + 0.3] for row in s_["k"]]
+        cases.append({"shells": shells, "classes": classes + ["l:%d,%d" % (ls[0], ls[1]), "nsh:4", "large-basis:%d" % sum(bases.nfunc(s_) for s_ in shells)], "cost": 5000})
     # tight shells about one width apart
     for k in range(8 if tier == "quick" else 64):
         rng = bases.rng_for("C02", seed, tier, "tight-near", k)
